@@ -432,7 +432,7 @@ Definition last_dropped (w : list segment) : N :=
 Definition series_kept (s : state) (dk : list key) (sr : key) : bool :=
   existsb (fun f => existsb (fun k => key_eqb (series_of k) sr && file_has_key f k) (kv_keys (f_data f))) (files (sd s))
   || existsb (fun k => key_eqb (series_of k) sr) (kv_keys (hot (sv s)))
-  || existsb (fun k => has_prefix sr k && negb (is_nil (cache_values {| c_snap := snap (sv s); c_hot := hot (sv s) |} k))) dk.
+  || existsb (fun k => key_eqb (series_of k) sr && negb (is_nil (cache_values {| c_snap := snap (sv s); c_hot := hot (sv s) |} k))) dk.
 
 (* ---- applicability ---- *)
 Definition is_up (s : state) : bool := match ph (sv s) with Up => true | _ => false end.
